@@ -326,7 +326,8 @@ func (self *linkedPairs) Get(key string) (*Pair, int) {
 	}
 linear_search:
 	for i := 0; i < self.size; i++ {
-		if n := self.At(i); n.Key == key {
+		// a soft-deleted cell is Pair{}: hash 0 (no key hashes to 0), Key "", Value V_NONE - it is not the member ""
+		if n := self.At(i); n.Key == key && !(key == "" && n.hash == 0 && n.Value.t == _V_NONE) {
 			return n, i
 		}
 	}
